@@ -4,6 +4,8 @@ parser, the Never-source printer and the s-expression printer (`nmdrv src`).
 Nodes are Python lists `[tag, ...]`; types are tuples; functions/params are dicts.
   types : ("bool",) ("int",) ("long",) ("float",) ("double",) ("char",) ("string",)
           ("named", name) ("arr", ndims, elem) ("func", [param dicts], ret) ("tuple", [types])
+          ("range", ndims)  `[.., ..] : range`      ("slice", ndims, elem)  `[.., ..] : elem`
+          a range / slice parameter lists its bound names in "dims": [f1, t1, f2, t2, ...] (or [] when anonymous)
   expr  : see `to_sexpr` — one case per constructor of `Never.Src.Expr`.
 """
 import struct
@@ -119,11 +121,12 @@ BINNAME = {"|||": "bor", "^^^": "bxor", "&&&": "band", "==": "eq", "!=": "ne", "
            ">=": "ge", "<<<": "shl", ">>>": "shr", "+": "add", "-": "sub", "*": "mul", "/": "div", "%": "mod"}
 
 class Parser:
-    def __init__(self, src):
+    def __init__(self, src, loader=None):
         self.t = tokenize(src)
         self.i = 0
         self.recs, self.enums = {}, {}
         self.next_id = 0
+        self.loader = loader      # module name -> source text (or None): `use m` is outside the core without it
 
     def peek(self, k=0):
         return self.t[min(self.i + k, len(self.t) - 1)]
@@ -148,29 +151,68 @@ class Parser:
         return v
 
     # ---- program
-    def program(self):
-        if self.iskw("use") or self.iskw("module"):
-            raise Unsupported("modules")
+    def unit(self):
+        """`never` of the grammar: [use ...] [enum / record declarations] [top-level items]; returns
+        dict(uses, recs, enums, items) with items as in a block: let / varb / funcs / e"""
+        uses = []
+        while self.iskw("use"):
+            self.adv(); uses.append(self.ident())
         while self.iskw("enum") or self.iskw("record"):
             if self.iskw("enum"):
                 self.enumdecl()
             else:
                 self.recdecl()
-        funcs = []
-        while not self.peek()[0] == "eof":
+        items = []
+        while not (self.peek()[0] == "eof" or self.isp("}")):
             if self.iskw("func"):
-                funcs.append(self.func())
+                f = self.func()
+                if items and items[-1][0] == "funcs":
+                    items[-1][1].append(f)
+                else:
+                    items.append(["funcs", [f]])
                 if self.isp(";"):
                     self.adv()
             elif self.iskw("extern"):
                 raise Unsupported("extern")
-            elif self.iskw("let") or self.iskw("var"):
-                raise Unsupported("top-level binding")
+            elif (self.iskw("let") or self.iskw("var")) and not self.iskw("func", 1):
+                kind = self.adv()[1]; x = self.ident(); self.expect("="); e = self.expr()
+                items.append(["let" if kind == "let" else "varb", x, e])
+                if self.isp(";"):
+                    self.adv()
             elif self.iskw("enum") or self.iskw("record"):
                 raise Unsupported("declaration after functions")
             else:
-                raise Unsupported("top-level expression %r" % (self.peek(),))
-        return dict(recs=[(n, f) for n, f in self.recs.items()], enums=[(n, it) for n, it in self.enums.items()], funcs=funcs)
+                items.append(["e", self.expr()])
+                if self.isp(";"):
+                    self.adv()
+        return dict(uses=uses, recs=[(n, f) for n, f in self.recs.items()], enums=[(n, it) for n, it in self.enums.items()], items=items)
+
+    def program(self):
+        if self.iskw("module"):
+            raise Unsupported("modules")
+        u = self.unit()
+        if self.peek()[0] != "eof":
+            raise ParseError("unexpected %r at top level" % (self.peek(),))
+        plain = not u["uses"] and all(it[0] == "funcs" for it in u["items"]) and len(u["items"]) <= 1
+        if plain:
+            funcs = u["items"][0][1] if u["items"] else []
+            return dict(recs=u["recs"], enums=u["enums"], funcs=funcs)
+        if u["uses"] and self.loader is None:
+            raise Unsupported("modules")
+        if any(it[0] == "e" for it in u["items"]) and self.loader is None:
+            raise Unsupported("top-level expression")
+        if self.loader is None:
+            raise Unsupported("top-level binding")
+        return link_units(u, self.loader)
+
+    def module(self):
+        self.expect_kw("module"); name = self.ident(); self.expect("{")
+        u = self.unit()
+        self.expect("}")
+        if self.peek()[0] != "eof":
+            raise ParseError("text after the module")
+        u["name"] = name
+        return u
 
     def enumdecl(self):
         self.expect_kw("enum"); name = self.ident(); self.expect("{")
@@ -181,7 +223,8 @@ class Parser:
                 self.adv(); fields = []
                 while not self.isp("}"):
                     p = self.param(); self.expect(";")
-                    fields.append((p["name"], p["ty"], p["mut"]))
+                    self.field_ok(p)
+                    fields.append((p["name"], p["ty"], p["mut"], p["dims"]))
                 self.adv()
                 val += 1
                 items.append((it, val, fields))
@@ -204,26 +247,57 @@ class Parser:
         fields = []
         while not self.isp("}"):
             p = self.param(); self.expect(";")
-            fields.append((p["name"], p["ty"], p["mut"]))
+            self.field_ok(p)
+            fields.append((p["name"], p["ty"], p["mut"], p["dims"]))
         self.adv()
         self.recs[name] = fields
 
+    def field_ok(self, p):
+        if p["ty"][0] in ("range", "slice") and (p["dims"] or p["name"] is None):
+            raise Unsupported("record field of range/slice type with bound names (r.from)")
+
     # ---- types / params
     def dims(self):
-        """after '[' : dim names; returns list of names, consumes ']'"""
+        """after '[' : dim names of an array type, or the `f .. t` pairs of a range / slice type; consumes ']'.
+        returns ("arr", names) or ("rng", ndims, [f1, t1, ...] or [])"""
+        if self.isp("..") or (self.peek()[0] == "id" and self.isp("..", 1)):
+            n, names, anon = 0, [], 0
+            while True:
+                if self.isp(".."):
+                    self.adv(); anon += 1
+                else:
+                    f = self.ident(); self.expect(".."); t = self.ident()
+                    names += [f, t]
+                n += 1
+                if self.isp(","):
+                    self.adv(); continue
+                break
+            self.expect("]")
+            if anon and names:
+                raise Unsupported("range/slice type with some bounds named and some not")
+            return ("rng", n, names)
         ds = []
         while True:
-            if self.isp(".."):
-                raise Unsupported("range/slice type")
-            d = self.ident()
-            if self.isp(".."):
-                raise Unsupported("range/slice type")
-            ds.append(d)
+            ds.append(self.ident())
             if self.isp(","):
                 self.adv(); continue
             break
         self.expect("]")
-        return ds
+        return ("arr", ds)
+
+    def bracket_type(self, name):
+        """after '[' of `[...] : T` / `name[...] : T`"""
+        d = self.dims(); self.expect(":")
+        if d[0] == "arr":
+            if self.iskw("range"):
+                raise ParseError("dimension names before `range`")
+            el = self.param()
+            return dict(name=name, ty=("arr", len(d[1]), el["ty"]), dims=d[1])
+        if self.iskw("range"):
+            self.adv()
+            return dict(name=name, ty=("range", d[1]), dims=d[2])
+        el = self.param()
+        return dict(name=name, ty=("slice", d[1], el["ty"]), dims=d[2])
 
     def param(self):
         mut = None
@@ -253,11 +327,8 @@ class Parser:
         if k == "kw" and v in ("void", "c_ptr", "range"):
             raise Unsupported("type " + v)
         if self.isp("["):
-            self.adv(); ds = self.dims(); self.expect(":")
-            if self.iskw("range"):
-                raise Unsupported("range type")
-            el = self.param()
-            return dict(name=None, ty=("arr", len(ds), el["ty"]), dims=ds)
+            self.adv()
+            return self.bracket_type(None)
         if self.isp("("):
             self.adv(); ps = self.param_list()
             if self.isp("->"):
@@ -278,19 +349,16 @@ class Parser:
                     return dict(name=name, ty=("tuple", [p["ty"] for p in ps]), dims=[])
                 tn = self.ident()
                 if self.isp("."):
-                    raise Unsupported("module type")
+                    self.adv(); tn = tn + "." + self.ident()
                 return dict(name=name, ty=("named", tn), dims=[])
             if self.isp("["):
-                self.adv(); ds = self.dims(); self.expect(":")
-                if self.iskw("range"):
-                    raise Unsupported("range type")
-                el = self.param()
-                return dict(name=name, ty=("arr", len(ds), el["ty"]), dims=ds)
+                self.adv()
+                return self.bracket_type(name)
             if self.isp("("):
                 self.adv(); ps = self.param_list(); self.expect("->"); r = self.param()
                 return dict(name=name, ty=("func", ps, r["ty"]), dims=[])
             if self.isp("."):
-                raise Unsupported("module type")
+                self.adv(); name = name + "." + self.ident()
             return dict(name=None, ty=("named", name), dims=[])
         raise ParseError("bad parameter at %r" % (self.peek(),))
 
@@ -392,8 +460,19 @@ class Parser:
         if self.isp("~~~"):
             self.adv(); return ["un", "bnot", self.unary()]
         e = self.postfix()
-        if self.isp("|>"):
-            raise Unsupported("pipe operator")
+        while self.isp("|>"):
+            # `l |> f(a, b)` = `f(l, a, b)` (a tuple `l` is unpacked into the first parameters): binds tighter than every
+            # unary / binary operator, left associative; the right operand is a postfix expression that must be a call
+            self.adv()
+            r = self.postfix()
+            if r[0] == "call":
+                e = ["pipe", e, r[1], r[2]]
+            elif r[0] == "builtin":
+                if e[0] == "tuple":
+                    raise Unsupported("pipe of a tuple into a builtin")
+                e = ["builtin", r[1], [e] + r[2], "pipe"]
+            else:
+                raise Unsupported("pipe into something that is not a call")
         return e
 
     def args(self):
@@ -428,12 +507,15 @@ class Parser:
                 self.adv()
                 first = self.expr()
                 if self.isp(".."):
-                    raise Unsupported("slice")
+                    self.adv(); bounds = [first, self.expr()]
+                    while self.isp(","):
+                        self.adv(); bounds.append(self.expr()); self.expect(".."); bounds.append(self.expr())
+                    self.expect("]")
+                    e = ["slice", e, bounds]
+                    continue
                 idx = [first]
                 while self.isp(","):
                     self.adv(); idx.append(self.expr())
-                    if self.isp(".."):
-                        raise Unsupported("slice")
                 self.expect("]")
                 e = ["index", e, idx]
             elif self.isp("."):
@@ -441,9 +523,12 @@ class Parser:
                 e = ["field", e, f]
             elif self.isp("::"):
                 self.adv(); it = self.ident()
-                if e[0] != "var":
-                    raise Unsupported("module-qualified enum")
-                e = ["enumval", e[1], it]
+                if e[0] == "field" and e[1][0] == "var":
+                    e = ["enumval", e[1][1] + "." + e[2], it]       # `m.E::item`
+                elif e[0] != "var":
+                    raise Unsupported("enum item of something that is not a name")
+                else:
+                    e = ["enumval", e[1], it]
             else:
                 return e
 
@@ -454,7 +539,7 @@ class Parser:
         """match_guard_item / match_guard_record without the body; returns partial node"""
         en = self.ident()
         if self.isp("."):
-            raise Unsupported("module-qualified guard")
+            self.adv(); en = en + "." + self.ident()
         self.expect("::"); it = self.ident()
         if self.isp("("):
             self.adv(); binds = []
@@ -603,7 +688,11 @@ class Parser:
                     self.i = save
             first = self.expr()
             if self.isp(".."):
-                raise Unsupported("range")
+                self.adv(); bounds = [first, self.expr()]
+                while self.isp(","):
+                    self.adv(); bounds.append(self.expr()); self.expect(".."); bounds.append(self.expr())
+                self.expect("]")
+                return ["range", bounds]
             if self.isp("|"):
                 self.adv(); quals = []
                 while True:
@@ -615,6 +704,8 @@ class Parser:
                         self.adv(); continue
                     break
                 self.expect("]"); self.expect(":"); el = self.param()
+                if el["mut"]:
+                    raise Unsupported("qualified element type")
                 return ["listcomp", el["ty"], first, quals]
             elems = [first]
             while self.isp(","):
@@ -644,9 +735,162 @@ def const_int(e):
         return None if v is None else -v
     return None
 
-def parse_program(src):
-    p = Parser(src)
-    return p.program()
+def parse_program(src, loader=None):
+    """loader: module name -> source text of `module name { … }` (or None).  With a loader, programs that `use` modules
+    or have top-level bindings / expressions are LINKED into one program of the core (see link_units)."""
+    p = Parser(src, loader)
+    prog = p.program()
+    if "source_override" in prog:
+        prog["source_override"] = src
+    return prog
+
+# ------------------------------------------------------------------ modules and top-level items
+#
+# A compilation unit is [use …] [declarations] [items]; its items behave like the items of a block (bindings in order,
+# consecutive functions form a group).  A program with modules is evaluated as ONE block: the items of every used
+# module in DEPENDENCY order (a module after the modules it uses; otherwise in order of first `use`), then the items of
+# the main unit, then `main(args)`.  That block becomes the body of a wrapper `main`; module-level names are qualified
+# (`m.x`), so are the records / enums of modules (`m.R`).  The reference evaluator itself is unchanged: modules are
+# nested scopes.  The real pipeline is run on the ORIGINAL text (prog["source_override"]) with NEVER_PATH set.
+
+def _walk(node, fn):
+    """post-order rewrite of every expression node (lists) inside node, through function dicts"""
+    if isinstance(node, dict):
+        node["body"] = _walk(node["body"], fn)
+        node["catches"] = [(c[0], _walk(c[1], fn)) for c in node["catches"]]
+        return node
+    if isinstance(node, list):
+        out = [(_walk(x, fn) if isinstance(x, (list, dict)) else x) for x in node]
+        return fn(out)
+    return node
+
+def _types_walk(ty, q):
+    k = ty[0]
+    if k == "named":
+        return ("named", q(ty[1]))
+    if k == "arr":
+        return ("arr", ty[1], _types_walk(ty[2], q))
+    if k == "slice":
+        return ("slice", ty[1], _types_walk(ty[2], q))
+    if k == "func":
+        return ("func", [dict(p, ty=_types_walk(p["ty"], q)) for p in ty[1]], _types_walk(ty[2], q))
+    if k == "tuple":
+        return ("tuple", [_types_walk(t, q) for t in ty[1]])
+    return ty
+
+def _qualify_unit(u, mod, known):
+    """rename the module-level names of unit `u` (module name `mod`, "" = main unit) to `mod.x`, its records / enums to
+    `mod.R`; resolve `n.x`, `n.R(…)` for used modules n.  known: module name -> dict(recs, enums, names)"""
+    import src_gen
+    pre = (mod + ".") if mod else ""
+    own_types = {n for n, _ in u["recs"]} | {n for n, _ in u["enums"]}
+    qt = lambda n: (pre + n) if n in own_types else n
+    uses = set(u["uses"])
+    def fix(e):
+        if not e or not isinstance(e[0], str):
+            return e
+        t = e[0]
+        if t == "field" and len(e) == 3 and isinstance(e[1], list) and e[1] and e[1][0] == "var" and e[1][1] in uses:
+            n, x = e[1][1], e[2]
+            if x in known[n]["recs"]:
+                return ["recnil", n + "." + x]
+            return ["var", n + "." + x]
+        if t == "call" and len(e) == 3 and isinstance(e[1], list) and e[1] and e[1][0] in ("var", "recnil") and "." in e[1][1] and e[1][1].split(".")[0] in uses and e[1][1].split(".", 1)[1] in known[e[1][1].split(".")[0]]["recs"]:
+            return ["record", e[1][1], e[2]]
+        if t in ("record", "recnil"):
+            return [t, qt(e[1])] + e[2:]
+        if t in ("enumval", "enumrec", "gitem", "grec"):
+            return [t, qt(e[1])] + e[2:]
+        if t in ("arrlit",):
+            return [t, e[1], _types_walk(e[2], qt)] + e[3:]
+        if t in ("arrnew", "listcomp"):
+            return [t, _types_walk(e[1], qt)] + e[2:]
+        if t == "tuple":
+            return [t, e[1], [_types_walk(x, qt) for x in e[2]]]
+        return e
+    def fix_func_types(f):
+        f["params"] = [dict(p, ty=_types_walk(p["ty"], qt)) for p in f["params"]]
+        f["ret"] = _types_walk(f["ret"], qt)
+    def all_funcs(node, out):
+        if isinstance(node, dict):
+            out.append(node); all_funcs(node["body"], out)
+            for c in node["catches"]:
+                all_funcs(c[1], out)
+        elif isinstance(node, list):
+            for x in node:
+                if isinstance(x, (list, dict)):
+                    all_funcs(x, out)
+    items = _walk(u["items"], fix)
+    fs = []; all_funcs(items, fs)
+    for f in fs:
+        fix_func_types(f)
+    # module-level binders, in order; an item is renamed with the binders BEFORE it in scope (plus its own group)
+    out, bs = [], []
+    def nu_for(k):
+        return lambda x, d: (pre + x) if d < k else x
+    for it in items:
+        if it[0] in ("let", "varb"):
+            e = src_gen.rn_expr(nu_for(len(bs)), bs, it[2])
+            out.append([it[0], pre + it[1], e]); bs.append(it[1])
+        elif it[0] == "funcs":
+            for f in it[1]:
+                bs.append(f["name"])
+            out.append(["funcs", [src_gen.rn_func(nu_for(len(bs)), bs, f) for f in it[1]]])
+        else:
+            out.append(["e", src_gen.rn_expr(nu_for(len(bs)), bs, it[1])])
+    qf = lambda fl: [(x[0], _types_walk(x[1], qt)) + tuple(x[2:]) for x in fl]
+    recs = [(pre + n, qf(fl)) for n, fl in u["recs"]]
+    enums = [(pre + n, [(it, v, None if fl is None else qf(fl)) for it, v, fl in its]) for n, its in u["enums"]]
+    return out, recs, enums, bs
+
+def link_units(main_unit, loader):
+    units, order = {}, []
+    def load(name, stack):
+        if name in units:
+            if name in stack:
+                raise Unsupported("cyclic use of modules")
+            return
+        src = loader(name)
+        if src is None:
+            raise Unsupported("module %s not found" % name)
+        u = Parser(src, loader).module()
+        if u["name"] != name:
+            raise Unsupported("module file %s declares module %s" % (name, u["name"]))
+        units[name] = u
+        for n in u["uses"]:
+            load(n, stack + [name])
+        order.append(name)          # after the modules it uses
+    for n in main_unit["uses"]:
+        load(n, [])
+    known = {n: dict(recs={r for r, _ in u["recs"]}, enums={e for e, _ in u["enums"]}) for n, u in units.items()}
+    items, recs, enums = [], [], []
+    for n in order:
+        its, rs, es, _ = _qualify_unit(units[n], n, known)
+        items += its; recs += rs; enums += es
+    its, rs, es, names = _qualify_unit(main_unit, "", known)
+    items += its; recs += rs; enums += es
+    mains = [f for it in its if it[0] == "funcs" for f in it[1] if f["name"] == "main"]
+    if not mains:
+        raise Unsupported("no main")
+    m = mains[0]
+    ps = [dict(p, name="arg%d_" % i, dims=[]) for i, p in enumerate(m["params"])]
+    body = ["seq", items + [["e", ["call", ["var", "main"], [["var", p["name"]] for p in ps]]]]]
+    wrapper = dict(id=0, name="main", params=ps, ret=m["ret"], retmut=None, body=body, catches=[])
+    # function ids: unique over all units
+    counter = [1]
+    def renum(node):
+        if isinstance(node, dict):
+            if node is not wrapper:
+                node["id"] = counter[0]; counter[0] += 1
+            renum(node["body"])
+            for c in node["catches"]:
+                renum(c[1])
+        elif isinstance(node, list):
+            for x in node:
+                if isinstance(x, (list, dict)):
+                    renum(x)
+    renum(wrapper)
+    return dict(recs=recs, enums=enums, funcs=[wrapper], source_override=True, modules=order)
 
 # ------------------------------------------------------------------ s-expression printer
 
@@ -656,6 +900,10 @@ def coarse(ty, prog):
         return k
     if k == "arr":
         return "arr"
+    if k == "range":
+        return "rng"
+    if k == "slice":
+        return "slc"
     if k == "func":
         return "func"
     if k == "tuple":
@@ -676,7 +924,7 @@ def sx(x):
     return str(x)
 
 def func_sx(f, prog):
-    ps = [["p", p["name"] if p["name"] else "-", coarse(p["ty"], prog)] + list(p["dims"] if p["ty"][0] == "arr" else []) for p in f["params"]]
+    ps = [["p", p["name"] if p["name"] else "-", coarse(p["ty"], prog)] + list(p["dims"] if p["ty"][0] in ("arr", "range", "slice") else []) for p in f["params"]]
     cs = [["catch", c[0] if c[0] else "*", expr_sx(c[1], prog)] for c in f["catches"]]
     return ["func", f["id"], f["name"] if f["name"] else "-", ["params"] + ps, coarse(f["ret"], prog), expr_sx(f["body"], prog), ["catches"] + cs]
 
@@ -753,6 +1001,12 @@ def expr_sx(e, prog):
     if t == "listcomp":
         qs = [["gen", q[1], R(q[2])] if q[0] == "gen" else ["filter", R(q[1])] for q in e[3]]
         return ["listcomp", coarse(e[1], prog), R(e[2])] + qs
+    if t == "pipe":
+        return ["pipe", R(e[1]), R(e[2])] + [R(a) for a in e[3]]
+    if t == "range":
+        return ["range"] + [R(a) for a in e[1]]
+    if t == "slice":
+        return ["slice", R(e[1])] + [R(a) for a in e[2]]
     raise Unsupported("expression %s" % t)
 
 def prog_sexpr(prog):
@@ -779,6 +1033,10 @@ def ty_src(ty):
         return ty[1]
     if k == "arr":
         return "[" + ",".join(["_"] * ty[1]) + "] : " + ty_src(ty[2])
+    if k == "range":
+        return "[" + ", ".join([".."] * ty[1]) + "] : range"
+    if k == "slice":
+        return "[" + ", ".join([".."] * ty[1]) + "] : " + ty_src(ty[2])
     if k == "func":
         return "(" + ", ".join(param_src(p, anon=True) for p in ty[1]) + ") -> " + ty_src(ty[2])
     if k == "tuple":
@@ -788,9 +1046,13 @@ def ty_src(ty):
 def param_src(p, anon=False):
     ty, name = p["ty"], p["name"]
     mut = (p.get("mut") + " ") if p.get("mut") else ""
+    k = ty[0]
+    if k in ("range", "slice") and (name is not None or p.get("dims")):
+        ds = p.get("dims") or []
+        inner = ", ".join("%s .. %s" % (ds[2 * i], ds[2 * i + 1]) for i in range(ty[1])) if ds else ", ".join([".."] * ty[1])
+        return "%s%s[%s] : %s" % (mut, name or "", inner, "range" if k == "range" else ty_src(ty[2]))
     if name is None or anon and False:
         return mut + ty_src(ty)
-    k = ty[0]
     if k in BASIC:
         return "%s%s : %s" % (mut, name, k)
     if k == "named":
@@ -836,6 +1098,15 @@ def nested_lit(shape, elems, ind):
         return "[ " + ", ".join(expr_src(x, ind) for x in elems) + " ]"
     n = len(elems) // shape[0]
     return "[ " + ", ".join(nested_lit(shape[1:], elems[i * n:(i + 1) * n], ind) for i in range(shape[0])) + " ]"
+
+def pipe_left(e, ind):
+    """the left operand of `|>`: anything that is not an atom / postfix expression is parenthesised by its own printer,
+    except the unparenthesised forms"""
+    s = expr_src(e, ind)
+    if e[0] in ("var", "int", "long", "float", "double", "char", "str", "bool", "index", "field", "slice", "call", "builtin",
+                "record", "enumval", "enumrec", "range", "seq") or s.startswith("("):
+        return s
+    return "(" + s + ")"
 
 def expr_src(e, ind=0):
     t = e[0]
@@ -901,7 +1172,11 @@ def expr_src(e, ind=0):
     if t == "call":
         return "%s(%s)" % (S(e[1]) if e[1][0] == "var" else "(" + S(e[1]) + ")", ", ".join(S(a) for a in e[2]))
     if t == "builtin":
+        if len(e) > 3 and e[3] == "pipe":
+            return "(%s |> %s(%s))" % (pipe_left(e[2][0], ind), e[1], ", ".join(S(a) for a in e[2][1:]))
         return "%s(%s)" % (e[1], ", ".join(S(a) for a in e[2]))
+    if t == "pipe":
+        return "(%s |> %s(%s))" % (pipe_left(e[1], ind), S(e[2]) if e[2][0] == "var" else "(" + S(e[2]) + ")", ", ".join(S(a) for a in e[3]))
     if t == "lam":
         return "(let " + func_src(e[1], ind) + ")"
     if t == "arrlit":
@@ -909,7 +1184,7 @@ def expr_src(e, ind=0):
     if t == "arrnew":
         return "({[ %s ]} : %s)" % (", ".join(S(a) for a in e[2]), ty_src(e[1]))
     if t == "index":
-        return "%s[%s]" % (S(e[1]) if e[1][0] in ("var", "index", "field") else "(" + S(e[1]) + ")", ", ".join(S(a) for a in e[2]))
+        return "%s[%s]" % (S(e[1]) if e[1][0] in ("var", "index", "field", "slice", "range") else "(" + S(e[1]) + ")", ", ".join(S(a) for a in e[2]))
     if t == "record":
         return "%s(%s)" % (e[1], ", ".join(S(a) for a in e[2]))
     if t == "tuple":
@@ -938,21 +1213,30 @@ def expr_src(e, ind=0):
     if t == "listcomp":
         qs = "; ".join(("%s in %s" % (q[1], S(q[2]))) if q[0] == "gen" else S(q[1]) for q in e[3])
         return "([ %s | %s ] : %s)" % (S(e[2]), qs, ty_src(e[1]))
+    if t == "range":
+        b = e[1]
+        return "[ " + ", ".join("%s .. %s" % (S(b[2 * i]), S(b[2 * i + 1])) for i in range(len(b) // 2)) + " ]"
+    if t == "slice":
+        b = e[2]
+        return "%s[ %s ]" % (S(e[1]) if e[1][0] in ("var", "index", "field", "slice", "range") else "(" + S(e[1]) + ")",
+                             ", ".join("%s .. %s" % (S(b[2 * i]), S(b[2 * i + 1])) for i in range(len(b) // 2)))
     raise Unsupported("expression %s" % t)
 
 def prog_src(prog):
+    if isinstance(prog.get("source_override"), str):
+        return prog["source_override"]       # linked programs (modules, top-level items): the real pipeline runs the original text
     out = []
     for n, items in prog["enums"]:
         its = []
         explicit = [x[1] for x in items] != list(range(len(items)))
         for it, val, fields in items:
             if fields is not None:
-                its.append("%s { %s }" % (it, " ".join(param_src(dict(name=fld[0], ty=fld[1], dims=[], mut=fld[2] if len(fld) > 2 else None)) + ";" for fld in fields)))
+                its.append("%s { %s }" % (it, " ".join(param_src(dict(name=fld[0], ty=fld[1], dims=(fld[3] if len(fld) > 3 else []), mut=fld[2] if len(fld) > 2 else None)) + ";" for fld in fields)))
             else:
                 its.append("%s = %s" % (it, val) if explicit else it)
         out.append("enum %s { %s }" % (n, ", ".join(its)))
     for n, fs in prog["recs"]:
-        out.append("record %s { %s }" % (n, " ".join(param_src(dict(name=fld[0], ty=fld[1], dims=[], mut=fld[2] if len(fld) > 2 else None)) + ";" for fld in fs)))
+        out.append("record %s { %s }" % (n, " ".join(param_src(dict(name=fld[0], ty=fld[1], dims=(fld[3] if len(fld) > 3 else []), mut=fld[2] if len(fld) > 2 else None)) + ";" for fld in fs)))
     for f in prog["funcs"]:
         out.append(func_src(f, 0))
     return "\n\n".join(out) + "\n"
